@@ -1,3 +1,203 @@
-import QtyModel.Tables
+import QtyModel.Lemmas.Approx
+/-
+  C13 — Rates relate two quantities consistently.
+
+  Property theorems only.  `approxRateApply` is the propagated-error description
+  of `((q / 1·u) / d) * m` that the run-time oracle evaluates on implementation outputs.
+-/
 namespace Qty.C13
+open Qty Qty.Rate
+
+variable {A : Type} (R : Arith A)
+
+/-- a rate reports exactly its four components -/
+theorem accessors (ta pm : A) (tu pu : Nat) :
+    (⟨ta, tu, pm, pu⟩ : Rate A).termAmount = ta ∧ (⟨ta, tu, pm, pu⟩ : Rate A).termUnit = tu ∧
+    (⟨ta, tu, pm, pu⟩ : Rate A).perMultiple = pm ∧ (⟨ta, tu, pm, pu⟩ : Rate A).perUnit = pu :=
+  ⟨rfl, rfl, rfl, rfl⟩
+
+theorem from_qty_vals (term per : Q A Nat) :
+    fromQtyVals term per = ⟨term.amount, term.unit, per.amount, per.unit⟩ := rfl
+
+/-- the reciprocal swaps term and per; applied twice it gives the original -/
+theorem reciprocal_swaps (r : Rate A) :
+    r.reciprocal = ⟨r.perMultiple, r.perUnit, r.termAmount, r.termUnit⟩ := rfl
+
+theorem reciprocal_involutive (r : Rate A) : r.reciprocal.reciprocal = r := rfl
+
+/-- dividing by a rate is multiplying by its reciprocal: the two are the same computation -/
+theorem div_is_mul_reciprocal (TT : RTable A) (q : Q A Nat) (r : Rate A) :
+    divQ R TT q r = mulQ R TT r.reciprocal q := rfl
+
+/-- per-quantity without reference unit: a value in a different unit gives the documented panic -/
+theorem mulQ_unit_mismatch (TP : RTable A) (hk : TP.kind = .noRef) (r : Rate A) (q : Q A Nat)
+    (h : q.unit ≠ r.perUnit) : mulQ R TP r q = .error .unitMismatch := by
+  simp [mulQ, qdiv, hk, nrDiv, h, bind, Except.bind]
+
+/-- `x / 1` -/
+theorem div_one_sound {M : ErrModel} (L : Laws R M) (a : A) (qv : Rat) (x : Approx)
+    (hq : R.val a = some qv)
+    (hA : Approx.div M (Approx.exact qv) (Approx.exact 1) = some x) (hok : x.ok = true) :
+    (∃ c, R.div a R.one = .ok c ∧ Realises R c x) ∧ 0 ≤ x.err :=
+  ⟨div_sound R L a R.one _ _ x (exact_sound R _ _ hq) (exact_sound R _ _ L.one_val)
+      (exact_err_nonneg _) (exact_err_nonneg _) hA hok,
+   div_err_nonneg L.wf _ _ x (exact_err_nonneg _) (exact_err_nonneg _) hA⟩
+
+/-- `q / (1·u)` (`Div<Self>`) is computed within the bound `approxQDiv` propagates -/
+theorem qdiv_sound {M : ErrModel} (L : Laws R M) (T : RTable A) (q : Q A Nat) (u : Nat)
+    (qv : Rat) (x : Approx) (hq : R.val q.amount = some qv)
+    (hA : approxQDiv R M T (Approx.exact qv) q.unit u = .ok (some x)) (hok : x.ok = true) :
+    (∃ c, Rate.qdiv R T q ⟨R.one, u⟩ = .ok c ∧ Realises R c x) ∧ 0 ≤ x.err := by
+  unfold approxQDiv at hA
+  unfold Rate.qdiv
+  cases hk : T.kind with
+  | withRef =>
+    simp only [hk] at hA ⊢
+    by_cases hu : q.unit = u
+    · simp only [hu, beq_self_eq_true, if_true, Except.ok.injEq] at hA
+      have := div_one_sound R L q.amount qv x hq hA hok
+      simpa [hrDiv, equivAmount, hu, bind, Except.bind] using this
+    · have hu' : (q.unit == u) = false := by simpa using hu
+      simp only [hu', Bool.false_eq_true, if_false] at hA
+      cases hsu : R.val (T.scaleOf R u) with
+      | none => simp [hsu] at hA
+      | some su =>
+      cases hsq : R.val (T.scaleOf R q.unit) with
+      | none => simp [hsu, hsq] at hA
+      | some sq =>
+      simp only [hsu, hsq, Except.ok.injEq] at hA
+      cases hρ : Approx.div M (Approx.exact su) (Approx.exact sq) with
+      | none => simp [hρ] at hA
+      | some ratio =>
+      simp only [hρ, Option.bind_eq_bind, Option.bind_some] at hA
+      have e0 := exact_err_nonneg
+      have hmok : (Approx.mul M ratio (Approx.exact 1)).ok = true := div_ok_right _ _ x hA hok
+      have hρok : ratio.ok = true := mul_ok_left _ _ hmok
+      have hρe : 0 ≤ ratio.err := div_err_nonneg L.wf _ _ ratio (e0 _) (e0 _) hρ
+      have hme : 0 ≤ (Approx.mul M ratio (Approx.exact 1)).err := mul_err_nonneg L.wf _ _ hρe (e0 _)
+      obtain ⟨ρ, hdiv, hρr⟩ := div_sound R L (T.scaleOf R u) (T.scaleOf R q.unit) _ _ ratio
+        (exact_sound R _ _ hsu) (exact_sound R _ _ hsq) (e0 _) (e0 _) hρ hρok
+      obtain ⟨e, hmul, her⟩ := mul_sound R L ρ R.one ratio (Approx.exact 1) hρr
+        (exact_sound R _ _ L.one_val) hρe (e0 _) hmok
+      obtain ⟨c, hdiv2, hcr⟩ := div_sound R L q.amount e _ _ x (exact_sound R _ _ hq) her
+        (e0 _) hme hA hok
+      refine ⟨⟨c, ?_, hcr⟩, div_err_nonneg L.wf _ _ x (e0 _) hme hA⟩
+      have hu2 : ¬ u = q.unit := fun h => hu h.symm
+      simp [hrDiv, equivAmount, Qty.ratio, RTable.qt, hu2, hdiv, hmul, hdiv2, bind, Except.bind]
+  | noRef =>
+    simp only [hk] at hA ⊢
+    by_cases hu : q.unit = u
+    · simp only [hu, beq_self_eq_true, if_true, Except.ok.injEq] at hA
+      have := div_one_sound R L q.amount qv x hq hA hok
+      simpa [nrDiv, hu] using this
+    · have hu' : (q.unit == u) = false := by simpa using hu
+      simp [hu'] at hA
+  | single =>
+    simp only [hk, Except.ok.injEq] at hA ⊢
+    exact div_one_sound R L q.amount qv x hq hA hok
+
+/-- what `approxRateApply … = .ok (some w)` says about the intermediate descriptions -/
+theorem rate_apply_inv {M : ErrModel} (T : RTable A) (a : Approx) (qu u : Nat) (d m w : Approx)
+    (hw : approxRateApply R M T a qu u d m = .ok (some w)) :
+    ∃ x amnt, approxQDiv R M T a qu u = .ok (some x) ∧ Approx.div M x d = some amnt ∧
+      w = Approx.mul M amnt m := by
+  unfold approxRateApply at hw
+  cases hA : approxQDiv R M T a qu u with
+  | error e => simp [hA] at hw
+  | ok ox =>
+    cases ox with
+    | none => simp [hA] at hw
+    | some x =>
+      cases hD : Approx.div M x d with
+      | none => simp [hA, hD] at hw
+      | some amnt =>
+        simp [hA, hD] at hw
+        exact ⟨x, amnt, rfl, hD, hw.symm⟩
+
+/-- the common core of `rate * q`, `q * rate` and `q / rate`:
+`((q / 1·u) / d) * m` is computed within the propagated bound, for every kind of quantity type.
+`qv`, `dv`, `mv` are the exact values of the amounts. -/
+theorem rate_apply_sound {M : ErrModel} (L : Laws R M) (T : RTable A) (q : Q A Nat) (u : Nat)
+    (d m : A) (qv dv mv : Rat) (w : Approx)
+    (hq : R.val q.amount = some qv) (hd : R.val d = some dv) (hm : R.val m = some mv)
+    (hw : approxRateApply R M T (Approx.exact qv) q.unit u (Approx.exact dv) (Approx.exact mv) = .ok (some w))
+    (hok : w.ok = true) :
+    ∃ x amnt z, Rate.qdiv R T q ⟨R.one, u⟩ = .ok x ∧ R.div x d = .ok amnt ∧ R.mul amnt m = .ok z ∧
+      Realises R z w := by
+  obtain ⟨X, AM, hA, hD, rfl⟩ := rate_apply_inv R T _ _ _ _ _ w hw
+  have hAMok : AM.ok = true := mul_ok_left _ _ hok
+  have hXok : X.ok = true := div_ok_left _ _ AM hD hAMok
+  obtain ⟨⟨x, hx, hxr⟩, hXe⟩ := qdiv_sound R L T q u qv X hq hA hXok
+  obtain ⟨amnt, hdiv, har⟩ := div_sound R L x d X _ AM hxr (exact_sound R _ _ hd) hXe
+    (exact_err_nonneg _) hD hAMok
+  have hAMe : 0 ≤ AM.err := div_err_nonneg L.wf _ _ AM hXe (exact_err_nonneg _) hD
+  obtain ⟨z, hmul, hzr⟩ := mul_sound R L amnt m AM _ har (exact_sound R _ _ hm) hAMe
+    (exact_err_nonneg _) hok
+  exact ⟨x, amnt, z, hx, hdiv, hmul, hzr⟩
+
+/-- `rate * q` (and `q * rate`): term amount × (value / per value), in the term unit -/
+theorem mulQ_sound {M : ErrModel} (L : Laws R M) (TP : RTable A) (r : Rate A) (q : Q A Nat)
+    (qv pmv tav : Rat) (w : Approx)
+    (hq : R.val q.amount = some qv) (hpm : R.val r.perMultiple = some pmv) (hta : R.val r.termAmount = some tav)
+    (hw : approxRateApply R M TP (Approx.exact qv) q.unit r.perUnit (Approx.exact pmv) (Approx.exact tav) = .ok (some w))
+    (hok : w.ok = true) :
+    ∃ res, mulQ R TP r q = .ok res ∧ res.unit = r.termUnit ∧ Realises R res.amount w := by
+  obtain ⟨x, amnt, z, hx, hdiv, hmul, hzr⟩ :=
+    rate_apply_sound R L TP q r.perUnit r.perMultiple r.termAmount qv pmv tav w hq hpm hta hw hok
+  refine ⟨⟨z, r.termUnit⟩, ?_, rfl, hzr⟩
+  simp [mulQ, hx, hdiv, hmul, bind, Except.bind, pure, Except.pure]
+
+/-- `q / rate`: per amount × (value / term value), in the per unit -/
+theorem divQ_sound {M : ErrModel} (L : Laws R M) (TT : RTable A) (r : Rate A) (q : Q A Nat)
+    (qv pmv tav : Rat) (w : Approx)
+    (hq : R.val q.amount = some qv) (hpm : R.val r.perMultiple = some pmv) (hta : R.val r.termAmount = some tav)
+    (hw : approxRateApply R M TT (Approx.exact qv) q.unit r.termUnit (Approx.exact tav) (Approx.exact pmv) = .ok (some w))
+    (hok : w.ok = true) :
+    ∃ res, divQ R TT q r = .ok res ∧ res.unit = r.perUnit ∧ Realises R res.amount w := by
+  obtain ⟨x, amnt, z, hx, hdiv, hmul, hzr⟩ :=
+    rate_apply_sound R L TT q r.termUnit r.termAmount r.perMultiple qv tav pmv w hq hta hpm hw hok
+  refine ⟨⟨z, r.perUnit⟩, ?_, rfl, hzr⟩
+  simp [divQ, hx, hdiv, hmul, bind, Except.bind, pure, Except.pure]
+
+/-- the exact value described by `approxRateApply` for a quantity with reference unit is
+`m · (q·s_q) / (d · s_u)`: term amount × (value / per value) -/
+theorem rate_apply_value {M : ErrModel} (T : RTable A) (hk : T.kind = .withRef) (qu u : Nat) (qv dv mv sq su : Rat)
+    (hsq : R.val (T.scaleOf R qu) = some sq) (hsu : R.val (T.scaleOf R u) = some su)
+    (hsq0 : sq ≠ 0) (hsu0 : su ≠ 0) (hd0 : dv ≠ 0) (w : Approx)
+    (hw : approxRateApply R M T (Approx.exact qv) qu u (Approx.exact dv) (Approx.exact mv) = .ok (some w)) :
+    w.v = mv * (qv * sq) / (dv * su) := by
+  obtain ⟨X, AM, hA, hD, rfl⟩ := rate_apply_inv R T _ _ _ _ _ w hw
+  rw [mul_v, div_v _ _ AM hD]
+  have hXv : X.v = qv * sq / su := by
+    unfold approxQDiv at hA
+    simp only [hk] at hA
+    by_cases hu : qu = u
+    · subst hu
+      simp only [beq_self_eq_true, if_true, Except.ok.injEq] at hA
+      rw [hsq] at hsu
+      simp only [Option.some.injEq] at hsu
+      subst hsu
+      rw [div_v _ _ X hA]
+      simp only [Approx.exact]
+      field_simp
+    · have hu' : (qu == u) = false := by simpa using hu
+      simp only [hu', Bool.false_eq_true, if_false, hsu, hsq, Except.ok.injEq] at hA
+      cases hρ : Approx.div M (Approx.exact su) (Approx.exact sq) with
+      | none => simp [hρ] at hA
+      | some ratio =>
+        simp only [hρ, Option.bind_eq_bind, Option.bind_some] at hA
+        rw [div_v _ _ X hA, mul_v, div_v _ _ ratio hρ]
+        simp only [Approx.exact]
+        field_simp
+  rw [hXv]
+  simp only [Approx.exact]
+  field_simp
+
+/-- non-vacuity: 3 h at a rate of 90 km per 2 h (decimal back-end, scales 1000 m and 3600 s) -/
+example :
+    let TD : RTable Dec := { name := [], kind := .withRef, units := #[default, default],
+                             scales := #[⟨10, 1⟩, ⟨3600, 0⟩], refIx := some 0, derived := none }
+    mulQ Dec.arith TD ⟨⟨90, 0⟩, 5, ⟨2, 0⟩, 1⟩ ⟨⟨3, 0⟩, 1⟩ = .ok ⟨⟨1350, 1⟩, 5⟩ := by
+  decide +kernel
+
 end Qty.C13
